@@ -1,5 +1,8 @@
 import Ruint.Model.DivUint
-/-! Driver for C03: model = `Ruint.DivU.*` (over the C14 `div` model), spec = `Nat` `/`, `%`.
+import Ruint.Gen.WordsUintDiv
+/-! Driver for C03: model = the `Uint` division surface GENERATED from `src/div.rs` / `src/special.rs` / `src/cmp.rs`
+(`Ruint.Gen.uint_*`, over the generated `algorithms::div`, Knuth D and the small divisions; `Props/C03.gen_*_eq` prove
+them equal to the hand models `Ruint.DivU.*` on canonical operands, which is where the driver uses them), spec = `Nat` `/`, `%`.
 
 Case lines `op bits n d` (hex values):
 `divrem` → `q r` | `panic`; `wdiv|div0..5`, `wrem|rem0..5`, `divceil`, `nmo` → value | `panic`;
@@ -27,6 +30,19 @@ def handle (args : List String) (_impl : String) : String × String :=
     let m := 2 ^ bits
     -- least multiple of y that is >= x
     let nm := (x + y - 1) / y * y
+    let L := nlimbs bits
+    let f := 3 * L + 2
+    -- canonical operands (always, for generated cases): the generated functions; otherwise the hand models
+    let g := decide (x < m ∧ y < m ∧ L < 2 ^ 62)
+    let divRem := fun (bits : Nat) (a b : List Nat) => if g then Ruint.Gen.uint_div_rem f bits L a b else divRem bits a b
+    let wrappingDiv := fun (bits : Nat) (a b : List Nat) => if g then Ruint.Gen.uint_wrapping_div f bits L a b else wrappingDiv bits a b
+    let wrappingRem := fun (bits : Nat) (a b : List Nat) => if g then Ruint.Gen.uint_wrapping_rem f bits L a b else wrappingRem bits a b
+    let checkedDiv := fun (bits : Nat) (a b : List Nat) => if g then Ruint.Gen.uint_checked_div f bits L a b else checkedDiv bits a b
+    let checkedRem := fun (bits : Nat) (a b : List Nat) => if g then Ruint.Gen.uint_checked_rem f bits L a b else checkedRem bits a b
+    let divCeil := fun (bits : Nat) (a b : List Nat) => if g then Ruint.Gen.uint_div_ceil f bits L a b else divCeil bits a b
+    let checkedNextMultipleOf := fun (bits : Nat) (a b : List Nat) =>
+      if g then Ruint.Gen.uint_checked_next_multiple_of f bits L a b else checkedNextMultipleOf bits a b
+    let nextMultipleOf := fun (bits : Nat) (a b : List Nat) => if g then Ruint.Gen.uint_next_multiple_of f bits L a b else nextMultipleOf bits a b
     match op with
     | "divrem" =>
       (match divRem bits a b with
